@@ -10414,3 +10414,11 @@ mod tests {
         );
     }
 }
+
+/// Verification hook (C07): run the association's packet handler on one (already decrypted) SCTP packet.
+#[cfg(rustrtc_verif)]
+impl SctpTransport {
+    pub async fn verif_handle_packet(&self, packet: Bytes) -> Result<()> {
+        self.inner.handle_packet(packet).await
+    }
+}
